@@ -81,7 +81,16 @@ def matching(src, i, open_c, close_c):
     return -1
 
 
-errors = []
+errors = []          # (table, message)
+CURRENT = ['general']
+
+
+class _Err(list):
+    def append(self, msg):
+        list.append(self, (CURRENT[0], msg))
+
+
+errors = _Err()
 
 
 def parse_newtypes(srcs):
@@ -230,31 +239,38 @@ def parse_features(repo):
 
 
 def parse_consts(srcs):
+    """all `pub const NAME: ControllerNumber = <init>;` -- value known only for literal initialisers"""
     s = srcs.get("controller_number_mod.rs", "")
     consts = []
-    for m in re.finditer(r"pub\s+const\s+(\w+)\s*:\s*ControllerNumber\s*=\s*ControllerNumber\s*\(\s*(0x[0-9A-Fa-f]+|\d+)\s*\)", s):
-        consts.append((m.group(1), int(m.group(2), 0)))
+    for m in re.finditer(r"pub\s+const\s+(\w+)\s*:\s*ControllerNumber\s*=\s*([^;]*);", s):
+        init = m.group(2).strip()
+        lit = re.fullmatch(r"ControllerNumber\s*\(\s*(0x[0-9A-Fa-f]+|\d+)\s*\)", init)
+        consts.append((m.group(1), int(lit.group(1), 0) if lit else None))
     if not consts:
         errors.append("no controller number constants found")
     return consts
 
 
 def parse_channel_mode_const(srcs, consts):
+    """the constant is_channel_mode_message_controller_number compares with (>=), if the body has
+    one of the recognised shapes; None otherwise (the tie is then by correspondence only)"""
     s = srcs.get("controller_number_mod.rs", "")
     m = re.search(r"fn\s+is_channel_mode_message_controller_number\s*\(\s*&self\s*\)\s*->\s*bool\s*\{(.*?)\}", s, re.S)
     if not m:
-        errors.append("cannot find is_channel_mode_message_controller_number")
         return None
-    body = m.group(1).strip()
-    mm = re.fullmatch(r"\*\s*self\s*>=\s*(?:controller_numbers\s*::\s*)?(\w+)", body)
-    if mm:
-        d = dict(consts)
-        if mm.group(1) in d:
+    body = re.sub(r"\s+", "", m.group(1))
+    d = {k: v for k, v in consts if v is not None}
+    for pat in (r"\*self>=(?:controller_numbers::)?(\w+)", r"self\.0>=(?:controller_numbers::)?(\w+)\.0",
+                r"self\.get\(\)>=(?:controller_numbers::)?(\w+)\.get\(\)"):
+        mm = re.fullmatch(pat, body)
+        if mm and mm.group(1) in d:
             return d[mm.group(1)]
-    mm = re.fullmatch(r"self\s*\.\s*0\s*>=\s*(0x[0-9A-Fa-f]+|\d+)", body)
+    mm = re.fullmatch(r"self\.0>=(0x[0-9A-Fa-f]+|\d+)", body)
     if mm:
         return int(mm.group(1), 0)
-    errors.append("unrecognised body of is_channel_mode_message_controller_number: " + body)
+    mm = re.fullmatch(r"matches!\(self\.0,(0x[0-9A-Fa-f]+|\d+)\.\.=(?:127|0x7[fF])\)", body)
+    if mm:
+        return int(mm.group(1), 0)
     return None
 
 
@@ -352,14 +368,18 @@ PRIM_RS = ["u8", "u16", "u32", "u64", "u128", "usize", "i8", "i16", "i32", "i64"
 def main():
     repo, root = sys.argv[1], sys.argv[2]
     srcs = read_sources(repo)
+    CURRENT[0] = "NewtypeTables"
     defs = parse_newtypes(srcs)
     convs = parse_convs(srcs)
     guards, unguarded = parse_new_guards(srcs)
     feats = parse_features(repo)
+    CURRENT[0] = "CtrlConsts"
     consts = parse_consts(srcs)
     cm = parse_channel_mode_const(srcs, consts)
+    CURRENT[0] = "EnumTables"
     smt = parse_enum(srcs, "short_message.rs", "ShortMessageType")
     tct = parse_enum(srcs, "short_message.rs", "TimeCodeType")
+    CURRENT[0] = "SerdeShapes"
     shapes = parse_serde_shapes(srcs)
 
     hdr = ["(* GENERATED by translator/gen_tables.py from /repo's current sources -- do not edit. *)",
@@ -394,7 +414,14 @@ def main():
     v = list(hdr)
     v.append("(* controller_numbers::* *)")
     v.append("Definition ctrl_consts : list (string * N) :=\n  [%s]." % ";\n   ".join(
-        "(%s, %d)" % (coq_str(a), b) for a, b in consts))
+        "(%s, %d)" % (coq_str(a), b) for a, b in consts if b is not None))
+    v.append("")
+    v.append("(* every constant's name, in declaration order (the harness observes them in this order) *)")
+    v.append("Definition ctrl_const_names : list string :=\n  [%s]." % ";\n   ".join(coq_str(a) for a, _ in consts))
+    v.append("")
+    v.append("(* constants whose initialiser is not a literal: their values are tied by the correspondence only *)")
+    v.append("Definition ctrl_const_unparsed : list string := [%s]." % "; ".join(
+        coq_str(a) for a, b in consts if b is None))
     v.append("")
     v.append("(* the constant is_channel_mode_message_controller_number compares with (>=) *)")
     v.append("Definition channel_mode_threshold_gen : option N := %s." % ("Some %d" % cm if cm is not None else "None"))
@@ -447,14 +474,18 @@ def main():
     c.append("}")
     write_if_changed(os.path.join(root, "harness", "src", "generated", "consts.rs"), "\n".join(c) + "\n")
 
-    if errors:
-        for e in errors:
-            print("translator: " + e)
-        return 1
+    import json
+    status = {}
+    for t, msg in errors:
+        status.setdefault(t, []).append(msg)
+    with open(os.path.join(gen, "status.json"), "w") as fh:
+        json.dump(status, fh, indent=1)
+    for t, msg in errors:
+        print("translator[%s]: %s" % (t, msg))
     print("translator: %d newtypes, %d conversions, %d guards%s, %d consts, %d+%d enum variants, %d serde shapes%s"
           % (len(defs), len(convs), len(guards), " (+unguarded)" if unguarded else "", len(consts), len(smt), len(tct),
              len(shapes), " [changed]" if changed else ""))
-    return 0
+    return 0   # per-table problems are reported through Generated/status.json
 
 
 if __name__ == "__main__":
